@@ -17,7 +17,9 @@ to_coords length try_get_length coverage is_placeholder posvalue islastpos isfir
 _compute_induced_edges_set _compute_required_links _find_edge_from_path_to_segment is_circular_same_end _segment_role _is_sid1_from eid sid1 sid2 beg1 end1 beg2 end2
 alignment rpos _undef_overlaps _backreference_keys _connectivity_symbol _connectivity_symbols end_relations oriented_relations""".split()
 EXCLUDE = {"OrientedLine.invert"}                 # an in-place mutator by design (shares its name with gfapy.invert)
-DECLARED = {"WriterWoSequence.__str__": {"WriterWoSequence.__str__:.sequence"}}      # temporary write, restored (contract below)
+DECLARED = {"WriterWoSequence.__str__": {"WriterWoSequence.__str__:.sequence"},      # temporary write, restored (contract below)
+            # the whole-graph conversion names the unnamed edges while it runs and takes the names back (contracts ToGfa2sRestores / TakeBackAssignedIds below)
+            "Gfa.to_gfa2_s": {"Gfa._take_back_assigned_ids:._max_int_name", "Gfa._take_back_assigned_ids:self._records[...]"}}
 
 
 @register
@@ -107,3 +109,134 @@ class WriterWoSequenceStr(Contract):
             wrote_star = z3.BoolVal(isinstance(seen, str) and seen == "*")
             return z3.And(restored, z3.Implies(wo, wrote_star))
         return [Case("S", [s, wo], post, heap=heap, symbols={"without_sequence": wo}, name_calls={"super().__str__": m_super_str}, expect_paths=2)]
+
+
+AIB_ = z3.ArraySort(I, B)
+AII_ = z3.ArraySort(I, I)
+
+
+@register
+class TakeBackAssignedIds(Contract):
+    fn = "gfapy/gfa.py::Gfa._take_back_assigned_ids"
+    props = ("C10",)
+    fragment = "H"
+    doc = ("_take_back_assigned_ids(edges, max_int_name, records): every edge of the list which is connected and has an ID tag by now loses it (delete('ID'), once); "
+           "no other line is written; the registries of links and containments are put back as they were recorded and the counter of integer names is set back "
+           "(loop invariant, every number of edges). Assumed: the list names each edge once")
+
+    def cases(self, ctx):
+        g = ctx.gfapy
+        n, mx = z3.Int("n_edges"), z3.Int("recorded_counter")
+        edge_id, idx_of = z3.Const("edge", AII_), z3.Const("index_of_edge", AII_)
+        conn, has0 = z3.Const("connected", AIB_), z3.Const("has_ID_now", AIB_)
+        gfa = Obj(g.Gfa, "gfa")
+        recL, recC = Obj(None, "recorded_L_registry"), Obj(None, "recorded_C_registry")
+        edges = SList(n, edge_id, lambda t: Ref(t, g.line.edge.Link))
+        j, l = z3.Int("j"), z3.Int("l")
+        class Registry:
+            def pyvc_setitem(self, E, i, v, st):
+                w = dict(st.ghost.get("registry", {}))
+                w[conc(i)] = w.get(conc(i), ()) + (v,)
+                yield ("fall", None, st.with_ghost("registry", w))
+        def m_conn(E, st, pos, kw):
+            yield ("val", conn[pos[0].t], [])
+        def m_get(E, st, pos, kw):
+            if conc(pos[1]) != "ID":
+                raise Unsupported("get(%r)" % (pos[1],))
+            yield ("val", Opt(z3.Not(st.zh["has_id"][pos[0].t]), Obj(None, "the_id")), [])
+        def m_delete(E, st, pos, kw):
+            if conc(pos[1]) != "ID":
+                raise Unsupported("delete(%r)" % (pos[1],))
+            zh = dict(st.zh)
+            zh["has_id"] = z3.Store(zh["has_id"], pos[0].t, z3.BoolVal(False))
+            zh["n_deleted"] = zh["n_deleted"] + 1
+            yield ("val", None, [], st.with_zh(zh))
+        models = {ctx.fn("gfapy/line/common/connection.py::Connection.is_connected"): m_conn, ctx.fn("gfapy/line/common/field_data.py::FieldData.get"): m_get,
+                  ctx.fn("gfapy/line/common/field_data.py::FieldData.delete"): m_delete}
+        def state(H, upto):
+            return z3.ForAll([l], H[l] == z3.If(z3.And(0 <= idx_of[l], idx_of[l] < upto, conn[l]), z3.BoolVal(False), has0[l]))
+        def inv(i, st):
+            return z3.And(0 <= i, i <= n, state(st.zh["has_id"], i), st.zh["n_deleted"] <= i)
+        invs = {("Gfa._take_back_assigned_ids", 0): dict(inv=inv, modheap=["has_id", "n_deleted"], mod={"l": lambda nm: Ref(fresh(nm, I), g.line.edge.Link)})}
+        pre = [n >= 0, z3.ForAll([j], z3.Implies(z3.And(0 <= j, j < n), idx_of[edge_id[j]] == j)),
+               z3.ForAll([l], z3.Implies(z3.And(0 <= idx_of[l], idx_of[l] < n), edge_id[idx_of[l]] == l))]
+        def post(kd, v, st):
+            if kd == "raise":
+                return z3.BoolVal(False)
+            reg = st.ghost.get("registry", {})
+            return z3.And(state(st.zh["has_id"], n), st.zh["n_deleted"] <= n,
+                          z3.BoolVal(reg.get("L") == (recL,) and reg.get("C") == (recC,) and set(reg) == {"L", "C"}),
+                          S(st.attrs(gfa).get("_max_int_name")) == mx)
+        return [Case("edges", [gfa, edges, mx, {"L": recL, "C": recC}], post, pre=pre, zh={"has_id": has0, "n_deleted": z3.IntVal(0)},
+                     heap={gfa.oid: {"_records": Registry(), "_max_int_name": z3.Int("counter_now")}, recL.oid: {}, recC.oid: {}},
+                     models=models, invariants=invs, symbols=dict(n_edges=n), minimize=[n])]
+
+
+def _restoring_conversion(fname, label):
+    class C_(Contract):
+        id = "ConversionRestores_" + label
+        fn = "gfapy/gfa.py::Gfa." + fname
+        props = ("C10",)
+        fragment = "H"
+        doc = ("%s of a GFA1 Gfa: what _gfa1_edges_without_id() recorded BEFORE the first line is converted is handed to _take_back_assigned_ids exactly once on every "
+               "way out - also when the conversion of a line raises, and then the exception still reaches the caller; a GFA2 Gfa is returned as it is, nothing is recorded or taken back" % fname)
+
+        def cases(self, ctx):
+            g = ctx.gfapy
+            is2 = z3.Bool("the_Gfa_is_GFA2")
+            nlines = z3.Int("n_lines")
+            fails = z3.Bool("a_line_cannot_be_converted")
+            gfa = Obj(g.Gfa, "gfa")
+            rec = (Obj(None, "edges_without_id"), Obj(None, "counter"), Obj(None, "registries"))
+            lines = SList(nlines, z3.Const("line", AII_), lambda t: Ref(t, g.Line))
+            def ev(st, what):
+                return st.with_ghost("events", tuple(st.ghost.get("events", ())) + (what,))
+            def m_record(E, st, pos, kw):
+                yield ("val", rec, [], ev(st, "record"))
+            def m_take_back(E, st, pos, kw):
+                ok = len(pos) == 4 and all(a is b for a, b in zip(pos[1:], rec))
+                yield ("val", None, [], ev(st, "take_back" if ok else "take_back_with_other_arguments"))
+            def m_convert(E, st, pos, kw):
+                # converting one line: may fail; the first conversion is marked (it must come after the recording)
+                st2 = st if "convert" in st.ghost.get("events", ()) else ev(st, "convert")
+                yield ("raise", Exc(g.RuntimeError), [fails], st2)
+                class Converted:                      # the converted line (a text which may be empty, or a line)
+                    def pyvc_truth(self, E):
+                        return fresh("converted_is_not_empty", B)
+                yield ("val", Converted(), [z3.Not(fails)], st2)
+            def m_add(E, st, pos, kw):
+                yield ("val", None, [])
+            def m_str(E, st, pos, kw):
+                yield ("val", Unknown("text"), [])
+            import builtins
+            models = {ctx.fn("gfapy/gfa.py::Gfa._gfa1_edges_without_id"): m_record, ctx.fn("gfapy/gfa.py::Gfa._take_back_assigned_ids"): m_take_back,
+                      ctx.fn("gfapy/lines/creators.py::Creators.add_line"): m_add,
+                      g.Gfa.lines.fget: const_model(lambda s_: lines), g.Gfa.version.fget: const_model(lambda s_: ite_str(is2, "gfa2", "gfa1")),
+                      g.Gfa.vlevel.fget: const_model(lambda s_: z3.Int("vlevel")), g.Gfa.__str__: m_str, builtins.str: m_str,
+                      g.Gfa: const_model(lambda *a, **k: Obj(g.Gfa, "new_gfa"))}
+            class Acc:                                # the list in which the converted texts are collected (its content is not the subject here)
+                def pyvc_attr(self, E, attr, st):
+                    if attr != "append":
+                        raise Unsupported("lines.%s" % attr)
+                    class A:
+                        def pyvc_call(self, E, pos, kw, st):
+                            yield ("val", None, st)
+                    yield ("val", A(), st)
+            def inv(i, st):
+                e = tuple(st.ghost.get("events", ()))
+                return z3.And(0 <= i, i <= nlines, z3.BoolVal(e in (("record",), ("record", "convert"))), z3.Implies(i > 0, z3.BoolVal(e == ("record", "convert"))))
+            invs = {("Gfa." + fname, 0): dict(inv=inv, mod={"line": lambda nm: Ref(fresh(nm, I), g.Line), "lines": lambda nm: Acc(), "converted": lambda nm: Unknown(nm)})}
+            def post(kd, v, st):
+                e = tuple(st.ghost.get("events", ()))
+                if kd == "raise":
+                    return z3.And(z3.Not(is2), fails, z3.BoolVal(v.cls is g.RuntimeError and e == ("record", "convert", "take_back")))
+                return z3.If(is2, z3.BoolVal(e == ()), z3.BoolVal(e in (("record", "take_back"), ("record", "convert", "take_back"))))
+            return [Case("gfa", [gfa], post, pre=[nlines >= 0], heap={gfa.oid: {}}, models=models, invariants=invs,
+                         name_calls={"line.to_gfa2_s": m_convert, "line.to_gfa2": m_convert},          # (the per-line conversions are generated methods: named by their spelling at the call site)
+                         symbols=dict(n_lines=nlines, the_Gfa_is_GFA2=is2, a_line_cannot_be_converted=fails))]
+    C_.__name__ = "ConversionRestores_" + label
+    return C_
+
+
+ConversionRestores_s = register(_restoring_conversion("to_gfa2_s", "to_gfa2_s"))
+ConversionRestores_g = register(_restoring_conversion("to_gfa2", "to_gfa2"))
